@@ -77,6 +77,23 @@ type Cfg struct {
 
 func pick(r *rand.Rand, ss []string) string { return ss[r.Intn(len(ss))] }
 
+// boundaryLens are lengths at which buffers, small-string paths or size classes typically change.
+var boundaryLens = []int{15, 16, 17, 31, 32, 33, 63, 64, 65, 127, 128, 129, 255, 256, 257, 1023, 1024, 4096}
+
+// LongValue returns a value of a boundary length (rarely used so that it stays a small share of the workload).
+func LongValue(r *rand.Rand) string {
+	n := boundaryLens[r.Intn(len(boundaryLens))]
+	return strings.Repeat(pick(r, []string{"a", "1", "z", "b"}), n)
+}
+
+// val draws a placeholder / match-all value, occasionally a long one.
+func val(r *rand.Rand) string {
+	if r.Intn(60) == 0 {
+		return LongValue(r)
+	}
+	return pick(r, Values)
+}
+
 // GenRegexElems builds 1..3 elements of a regex segment (no two adjacent literals).
 func GenRegexElems(r *rand.Rand) []rmodel.Elem {
 	n := 1 + r.Intn(3)
@@ -191,6 +208,11 @@ func GenRoute(r *rand.Rand, pool []rmodel.Segment, c Cfg) *rmodel.Route {
 func GenSet(r *rand.Rand, c Cfg, maxRoutes int) []*rmodel.Route {
 	pool := GenPool(r, c)
 	n := 1 + r.Intn(maxRoutes)
+	if r.Intn(80) == 0 {
+		// occasionally a big set over a bigger pool: nodes with more than 8/16 children
+		pool = append(pool, GenPool(r, Cfg{PoolSize: 12, NoRegex: c.NoRegex, OnlyStatic: c.OnlyStatic})...)
+		n = 20 + r.Intn(25)
+	}
 	out := make([]*rmodel.Route, n)
 	for i := range out {
 		out[i] = GenRoute(r, pool, c)
@@ -229,7 +251,7 @@ func InstSeg(r *rand.Rand, s *rmodel.Segment, final bool) []string {
 	case rmodel.KStatic:
 		return []string{sg.Lit}
 	case rmodel.KPlaceholder:
-		return []string{pick(r, Values)}
+		return []string{val(r)}
 	case rmodel.KAll, rmodel.KOdd:
 		n := 1 + r.Intn(3)
 		if r.Intn(6) == 0 {
@@ -237,7 +259,7 @@ func InstSeg(r *rand.Rand, s *rmodel.Segment, final bool) []string {
 		}
 		out := make([]string, n)
 		for i := range out {
-			out[i] = pick(r, Values)
+			out[i] = val(r)
 		}
 		return out
 	}
